@@ -135,12 +135,58 @@ class LogCap(logging.Handler):
         self.records.append((r.getMessage(), exc))
 
 
+# ----------------------------------------------------------------------------- the type of the data_ports argument
+# `data_ports` is documented as "a collection of ports": the constructor accepts any iterable.  The property (every configured
+# port is in the pool exactly once when idle) is about the ports the argument YIELDS, whatever its type: a sequence, a lazy
+# range, an unordered container, or a one-shot iterator (generator, map, iter(...)) that can be walked a single time.
+PTYPES = ["list", "tuple", "range", "set", "frozenset", "dict_keys", "dict_values", "deque", "generator", "map", "iter", "chain"]
+ONE_SHOT = ("generator", "map", "iter", "chain")
+
+
+def ports_arg(ports, ptype):
+    """(effective type, the object handed to Server(data_ports=...)); a type that cannot represent `ports` (a range for
+    non-consecutive ports, a set for a pool with a duplicate) falls back to the next applicable one-shot / sequence type"""
+    ports = list(ports)
+    nodup = len(set(ports)) == len(ports)
+    if ptype == "range" and not (ports and ports == list(range(ports[0], ports[0] + len(ports)))):
+        ptype = "iter"
+    if ptype in ("set", "frozenset", "dict_keys") and not nodup:
+        ptype = "generator"
+    if ptype == "tuple":
+        return ptype, tuple(ports)
+    if ptype == "range":
+        return ptype, range(ports[0], ports[0] + len(ports))
+    if ptype == "set":
+        return ptype, set(ports)
+    if ptype == "frozenset":
+        return ptype, frozenset(ports)
+    if ptype == "dict_keys":
+        return ptype, dict.fromkeys(ports).keys()
+    if ptype == "dict_values":
+        return ptype, dict(enumerate(ports)).values()
+    if ptype == "deque":
+        return ptype, collections.deque(ports)
+    if ptype == "generator":
+        return ptype, (p for p in ports)
+    if ptype == "map":
+        return ptype, map(int, ports)
+    if ptype == "iter":
+        return ptype, iter(ports)
+    if ptype == "chain":
+        import itertools
+
+        return ptype, itertools.chain(ports[:1], ports[1:])
+    return "list", list(ports)
+
+
 # ----------------------------------------------------------------------------- the driver
 class Driver:
     """the real server on simnet + a tracker of gated start-ups (derived from the real side only)"""
 
-    def __init__(self, net, ports, ipv6=False):
+    def __init__(self, net, ports, ipv6=False, ptype="list"):
         self.net = net
+        self.ptype = ptype if ptype in PTYPES else "list"
+        self.init_bad = None  # the pool right after construction differs from what the data_ports argument yields
         self.ipv6 = bool(ipv6)  # the server listens on ::1: passive listeners are AF_INET6 sockets
         self.ports = list(ports)
         self.new_gates = []
@@ -165,7 +211,20 @@ class Driver:
             return None
 
         net.bind_gate = gate
-        self.server = aioftp.Server(None, data_ports=self.ports, path_io_factory=aioftp.MemoryPathIO)
+        self.ptype, arg = ports_arg(self.ports, self.ptype)
+        try:
+            self.server = aioftp.Server(None, data_ports=arg, path_io_factory=aioftp.MemoryPathIO)
+            q = self.server.available_data_ports
+            init = sorted(q._queue) if q is not None else None
+            if init != sorted((0, p) for p in self.ports):
+                self.init_bad = (f"data_ports given as a {self.ptype} yielding {self.ports}: the pool of the idle server right after "
+                                 f"construction holds {init}, expected every configured port exactly once with priority 0")
+        except Exception as e:  # the constructor of a changed implementation refusing an iterable is an observation
+            self.init_bad = f"Server(data_ports=<{self.ptype} yielding {self.ports}>) raised {type(e).__name__}: {e}"
+            self.server = None
+        if self.server is None or self.server.available_data_ports is None:
+            # keep observing: the rest of the history runs on a server built from the plain list
+            self.server = aioftp.Server(None, data_ports=list(self.ports), path_io_factory=aioftp.MemoryPathIO)
         await self.server.start("::1" if self.ipv6 else "127.0.0.1", CTRL)
 
     # -- observation of the real objects
@@ -410,7 +469,7 @@ class Driver:
             await self.apply(("close",))
 
 
-def run_history(ports, chooser, ipv6=False):
+def run_history(ports, chooser, ipv6=False, ptype="list"):
     """chooser(driver) -> next action or None; returns the driver (events, snapshots, actions)"""
     cap = LogCap()
     lg = logging.getLogger("aioftp.server")
@@ -421,7 +480,7 @@ def run_history(ports, chooser, ipv6=False):
 
     async def main(net):
         net.loop.set_exception_handler(lambda loop, c: None)
-        d = Driver(net, ports, ipv6)
+        d = Driver(net, ports, ipv6, ptype)
         box["d"] = d
         await d.start()
         while len(d.actions) < MAX_ACTIONS:
@@ -485,6 +544,8 @@ def oracle_findings(d):
     start-ups the action cancelled (F5) or the listener it overwrote (F5b); any other port lost by the same action
     is reported under the generic key `c11-lost-<action>`, which is not listed."""
     out = []
+    if getattr(d, "init_bad", None):
+        out.append((0, "c11-pool-init", d.init_bad))
     prev_missing = collections.Counter()
     prev_orphans = []
     for k, real in enumerate(d.snaps):
@@ -525,7 +586,7 @@ def check_driver(ctx, d, msnaps, stream):
     """compare the real snapshots with the model's, evaluate the oracle; returns True when all agree"""
     ctx.traces_impl += 1
     ok = True
-    replay = {"ports": d.ports, "ipv6": d.ipv6, "actions": d.actions}
+    replay = {"ports": d.ports, "ipv6": d.ipv6, "ptype": d.ptype, "actions": d.actions}
     for k, (real, ms) in enumerate(zip(d.snaps, msnaps)):
         mv = model_view(ms)
         ctx.case((stream, tuple(d.ports), json.dumps(d.actions[: k + 1])))
@@ -724,7 +785,11 @@ def correspondence(ctx, budget=None):
         "(none | session j at suspension point 1|2 by QUIT/EOF/close) x sequential/round-robin start-ups x end mode, followed by a "
         "second PASV, a LIST transfer and everybody leaving; the same scripts on an IPv6 listener (::1: PASV opens and stores the "
         "listener, then answers 503 and ends the session; first commands mixed PASV/EPSV or all EPSV) and exhaustive DFS on IPv6, "
-        "(c) random walks (a quarter of them on IPv6) over 3 sessions / 1-3 ports incl. a duplicated port; "
+        "(c) random walks (a quarter of them on IPv6) over 3 sessions / 1-3 ports incl. a duplicated port; (d) the TYPE of the "
+        "data_ports argument: list, tuple, range, set, frozenset, dict keys/values, deque and the one-shot iterables generator, map, "
+        "iter(...), itertools.chain - rotated over the systematic scripts, drawn at random for the random walks and crossed with pool "
+        "sizes 0..3 in a stream of its own; the pool of the idle server right after construction must hold exactly what the argument "
+        "yields (key c11-pool-init); "
         "one evaluation = one (pool, history prefix): pool contents with priorities, listener per session, start-ups in flight, "
         "orphan listeners, reply codes compared with the model + the multiset equation on the real objects; non-trivial = distinct."
     )
@@ -773,7 +838,8 @@ def correspondence(ctx, budget=None):
                             continue
                         end_mode = rng.choice(["quit", "drop", "close"])
                         ports, ch = systematic(nports, nsess, faults, cancel, overlapped, end_mode)
-                        drivers.append(("systematic", run_history(ports, ch)))
+                        # the type of the data_ports argument rotates through every kind of iterable
+                        drivers.append(("systematic", run_history(ports, ch, ptype=PTYPES[n_sys % len(PTYPES)])))
                         n_sys += 1
                         if nports >= 1 and (thorough or cancel is None or nsess == 1):
                             ports, ch = systematic(nports, nsess, faults, cancel, overlapped, end_mode, relogin=True)
@@ -796,9 +862,24 @@ def correspondence(ctx, budget=None):
     for _ in range(n_rand):
         ports = rng.choice(pools[:3]) if rng.random() < 0.8 else rng.choice(pools)
         v6 = rng.random() < 0.25
-        d = run_history(ports, random_chooser(rng, 3, rng.randint(5, 22)), ipv6=v6)
+        d = run_history(ports, random_chooser(rng, 3, rng.randint(5, 22)), ipv6=v6, ptype=rng.choice(PTYPES))
         drivers.append(("random-ipv6" if v6 else "random", d))
     ctx.count("random_histories", n_rand)
+
+    # (d) the TYPE of the data_ports argument: every kind of iterable the constructor accepts x pool size 0..3 (and a pool
+    # with a duplicate for the types that can hold one) x fault-free / first port busy once, one full session each
+    n_pt = 0
+    for pt in PTYPES:
+        for nports in (0, 1, 2, 3):
+            for faults in (("free",) * nports, ("busy1",) + ("free",) * (nports - 1)) if nports else ((),):
+                ports, ch = systematic(nports, 2 if nports > 1 else 1, faults, None, False, "quit")
+                drivers.append(("ports-type", run_history(ports, ch, ptype=pt)))
+                n_pt += 1
+        d = run_history([30002, 30001, 30002], scripted([("connect",), ("pasv", 0, "PASV"), ("resume", 0, 0, "ok"), ("resume", 0, 0, "ok"),
+                                                         ("work", 0, "LIST"), ("end", 0, "quit")]), ptype=pt)
+        drivers.append(("ports-type", d))
+        n_pt += 1
+    ctx.count("ports_type_histories", n_pt)
 
     # model in one batch
     gb, rc = flags_from_gen()
@@ -812,6 +893,7 @@ def correspondence(ctx, budget=None):
     for (stream, d), ms, q, case in zip(drivers, mres, qres, cases):
         for a in d.actions:
             kinds[a[0] + (":" + a[3] if a[0] == "resume" else "")] += 1
+        kinds["data_ports:" + d.ptype] += 1
         ok = check_driver(ctx, d, ms, stream)
         lost_any = any(s["missing"] or s["orphans"] for s in d.snaps)
         if q == 1:
@@ -940,8 +1022,9 @@ def replay(ctx, data):
     # about THAT action (later actions of the same history may hit a listed finding); a witness file has no `upto`
     upto = r.get("upto")
     actions = [tuple(a) for a in r["actions"]]
-    d = run_history(r["ports"], scripted(actions[:upto] if upto else actions), ipv6=bool(r.get("ipv6")))
+    d = run_history(r["ports"], scripted(actions[:upto] if upto else actions), ipv6=bool(r.get("ipv6")), ptype=r.get("ptype", "list"))
     want = r.get("key")
+    print(d.init_bad or f"data_ports given as a {d.ptype} yielding {d.ports}: pool after construction as configured")
     for a, sn in zip(d.actions, d.snaps):
         print(f"after {a}: pool={sn['pool']} sessions={sn['sessions']} orphans={sn['orphans']} missing={sn['missing']} extra={sn['extra']}")
     found = oracle_findings(d)
